@@ -64,7 +64,9 @@ PROBES = ['same_file_twice', 'encoding_option', 'stdin_input', 'multi_file', 'tr
 NORM_FLAGS = ['canonicalize_roles', 'reify_edges', 'dereify_edges', 'reify_attributes', 'indicate_branches']
 REARRANGE_KEYS = ['canonical', 'alphanumeric', 'inverted-last', 'attributes-first', 'random']
 RECONFIGURE_KEYS = ['original', 'canonical', 'random']
-VAR_FORMATS = ['{prefix}{j}', 'a{i}', '{prefix}{i}', 'x{j}_', 'v{i}{j}']
+VAR_FORMATS = ['{prefix}{j}', 'a{i}', '{prefix}{i}', 'x{j}_', 'v{i}{j}',
+               # format specifications and conversions are ordinary str.format syntax
+               '{prefix}{i:02d}', 'n{j:d}', '{prefix}{i!s}', '{prefix}{j:>02}']
 
 
 def plan_options(rng, spec):
@@ -77,9 +79,14 @@ def plan_options(rng, spec):
     if rng.chance(p):
         n = rng.weighted([(1, 3), (2, 2), (3, 1)])
         o['rearrange'] = rng.sample(REARRANGE_KEYS, n)
+        if rng.chance(0.2):
+            # a key list may name a criterion twice ("combined in prioritized order": the first mention decides)
+            o['rearrange'] = o['rearrange'] + [rng.pick(o['rearrange'])] + ([rng.pick(REARRANGE_KEYS)] if rng.chance(0.3) else [])
     if rng.chance(p * 0.7):
         n = rng.weighted([(1, 3), (2, 1)])
         o['reconfigure'] = rng.sample(RECONFIGURE_KEYS, n)
+        if rng.chance(0.2):
+            o['reconfigure'] = o['reconfigure'] + [rng.pick(o['reconfigure'])]
     if rng.chance(p * 0.7):
         o['make_variables'] = rng.pick(VAR_FORMATS)
     if rng.chance(0.12):
